@@ -136,7 +136,8 @@ public:
       } else {
         return {
           sin(th) / th,
-          (cos(th) - Scalar(1)) / th,
+          // (cos(th) - 1) / th without the cancellation for small th
+          th * detail::cos_2(th2),
         };
       }
     }();
